@@ -121,12 +121,14 @@ pub fn run(ctx: &Ctx) -> Report {
                     let item = { queue.lock().unwrap().next() };
                     let Some((name, src, with_modules)) = item else { break };
                     let mk = |fuel: Option<u64>| Request { op: "run".into(), snippets: vec![src.clone()], modules: if with_modules { modules.clone() } else { Default::default() }, fuel, ..Default::default() };
-                    // gate: programs on which the checked build panics or crashes are C02's verdict; in the
-                    // optimised build they are undefined behaviour and comparing outputs there is meaningless
+                    // gate: only programs that run for ever (the instruction budget of the hooks runner is
+                    // exhausted) are left out - the shipping configurations have no budget.  A program on which
+                    // the checked build panics stays in: where the optimised build carries on instead, that is
+                    // a disagreement between configurations like any other.
                     let g = gate.call(&mut mk(Some(5_000_000)));
                     let gated_out = match g.resp().and_then(|r| r.results.get(0)) {
-                        Some(r) => matches!(r.outcome, proto::Outcome::Panic { .. }) || matches!(&r.outcome, proto::Outcome::Err { messages, .. } if messages.iter().any(|m| m.contains("verif: fuel"))),
-                        None => true,
+                        Some(r) => matches!(&r.outcome, proto::Outcome::Err { messages, .. } if messages.iter().any(|m| m.contains("verif: fuel"))),
+                        None => false,
                     };
                     if gated_out {
                         results.lock().unwrap().2 += 1;
